@@ -484,6 +484,54 @@ pub fn family(tier: Tier) -> Vec<Spec> {
         specs.push(Spec::new(false, vec![a.clone(), Pat::regex("é+")]));
         specs.push(Spec::new(false, vec![a.clone(), Pat::regex("[^a]")]));
     }
+    // look-around "sandwiches": head  assertion  tail, where the head may be a loop whose class
+    // straddles the assertion (word and non-word bytes, text and line feeds) and the tail may make
+    // the assertion unsatisfiable (a loop that can never be left: states from which no match is
+    // reachable) or satisfiable only at the end of input / one byte later
+    let heads = ["a", "a+", "[a,]+", "[a\\n]+", "(ab)*a", "[^a]+", "[ab]*,", "a?,+"];
+    let looks = ["(?-u:\\b)", "(?-u:\\B)", "$", "(?m:$)", "(?-u:\\b{end})", "(?-u:\\b{start-half})"];
+    let tails = ["", "a", ",", "a+", "[0-9]+", "\\n", "[a,]*!"];
+    let (hn, tn) = if tier == Tier::Thorough { (heads.len(), tails.len()) } else { (6, 5) };
+    for h in &heads[..hn] {
+        for l in looks.iter().take(if tier == Tier::Thorough { 6 } else { 4 }) {
+            for t in &tails[..tn] {
+                let p = format!("{h}{l}{t}");
+                specs.push(Spec::new(true, vec![Pat::regex(&p)]));
+                specs.push(Spec::new(false, vec![Pat::regex(&p), Pat::regex("[0-9]+")]));
+                specs.push(Spec::new(true, vec![Pat::regex(&p).prio(9), Pat::regex("[a,]").prio(1), Pat::token("\n")]));
+                specs.push(Spec::new(true, vec![Pat::skip(&p), Pat::regex("[a-z0-9]+").prio(1)]));
+            }
+        }
+    }
+    // a pattern that never wins anywhere (completely shadowed by a later, higher-priority pattern
+    // with the same language), declared FIRST, so that every later leaf index is shifted; in front
+    // of shapes with early, late and early-and-late accepting states
+    for base in [
+        vec![Pat::regex("[a-z]+(?-u:\\b)").prio(5), Pat::regex("[a-z]+!").prio(6)],
+        vec![Pat::regex("let(?-u:\\b)").prio(9), Pat::token("let "), Pat::regex("[a-z]+").prio(1)],
+        vec![Pat::regex("[ab]+").prio(4), Pat::token("ab"), Pat::skip(" +")],
+        vec![Pat::regex("a(?m:$)").prio(7), Pat::regex("a\\n?b?").prio(3)],
+        vec![Pat::regex("(a|ab)(?-u:\\b)").prio(5), Pat::regex("[ab]+c").prio(6), Pat::skip(",")],
+    ] {
+        for k in 0..base.len() {
+            if base[k].kind == Kind::Skip {
+                continue;
+            }
+            // the shadow: same source, lowest priority, placed first / in the middle
+            let mut shadow = base[k].clone();
+            shadow.priority = Some(1);
+            let mut winner = base.clone();
+            if winner[k].priority.is_none() {
+                winner[k].priority = Some(40);
+            }
+            for pos in [0, 1] {
+                let mut pats = winner.clone();
+                pats.insert(pos.min(pats.len()), shadow.clone());
+                specs.push(Spec::new(true, pats.clone()));
+                specs.push(Spec::new(false, pats));
+            }
+        }
+    }
     // dedupe
     let mut seen = std::collections::HashSet::new();
     specs.retain(|s| seen.insert(s.clone()));
